@@ -163,6 +163,16 @@ def run(ctx):
     else:
         ctx.note("C03.MONTH: no `year +=/-= const` carry idiom present; carry direction not checked")
 
+    # ------------------------------------------------------------------ C03.CARRY
+    from ..rules_common import check_month_carry
+    from ..ivl import Val as _V
+
+    def seeds_for(m, k):
+        return {"other.month": _V(m, m), "self.month": _V(0, 0), "self.year": _V(0, 0), "other.year": _V(0, 0, "Y"), "self.years": _V(0, 0), "self.months": _V(k, k), "self._has_time": _V(0, 0)}
+    check_month_carry(ctx, "C03.CARRY", add, add, lambda c: src(c.func).endswith("monthrange") and len(c.args) == 2, seeds_for,
+                      range(1, 13), range(-12, 13), "a months shift moves the calendar month by exactly that many months: month = ((m-1+k) mod 12)+1 and the "
+                      "year carries floor((m-1+k)/12), for every start month and every shift in -12..12")
+
     # ------------------------------------------------------------------ C03.PROMOTE
     fix = prog.method(cls.qualname, "_fix", "C03.PROMOTE")
     test = None
